@@ -14,6 +14,7 @@ package main
 
 import (
 	"bytes"
+	"fmt"
 	"strconv"
 	"strings"
 )
@@ -203,6 +204,23 @@ func (c *caseGen) jsonMalformed() []byte {
 	kv := isKVKind(c.cfg.Kind)
 	k1, k2 := strconv.Itoa(g.between(0, c.hi)), strconv.Itoa(g.between(0, c.hi))
 	v1, v2 := strconv.Itoa(c.value()), strconv.Itoa(c.value())
+	if g.intn(40) == 0 { // a long document (> 64 KiB) whose LAST element has the wrong type: still an error, still atomic
+		var b strings.Builder
+		if kv {
+			b.WriteByte('{')
+			for i := 0; i < 9000; i++ {
+				fmt.Fprintf(&b, "\"%d\":%d,", i, i%97)
+			}
+			b.WriteString(`"9000":"oops"}`)
+		} else {
+			b.WriteByte('[')
+			for i := 0; i < 16000; i++ {
+				fmt.Fprintf(&b, "%d,", i%997)
+			}
+			b.WriteString(`"oops"]`)
+		}
+		return []byte(b.String())
+	}
 	switch g.intn(7) {
 	case 0: // syntactically invalid
 		return []byte(g.pick(syntaxErrors))
